@@ -146,32 +146,40 @@ def instrumented_simulate(model_file, mapdir, chroms, region, popsize, seed):
     gens = []
     orig_np, orig_gs, orig_sim = sg.np, sg.get_segment, sg._simulate
 
-    def rec_gs(pop, hap, chrom, st, en, cm, prev):
-        out = orig_gs(pop, hap, chrom, st, en, cm, prev)
-        calls.append([int(pop), int(hap), int(chrom), int(st), int(en), float(cm), len(out)])
+    from . import common as C
+
+    def rec_gs(*a, **k):
+        out = orig_gs(*a, **k)
+        with C.glue("recording get_segment"):
+            pop, hap, chrom, st, en, cm = list(C.bind_args(orig_gs, a, k).values())[:6]
+            calls.append([int(pop), int(hap), int(chrom), int(st), int(en), float(cm), len(out)])
         return out
 
-    def rec_sim(samples, pops, pop_fracs, pop_gen, chroms_, coords, end_coords, recomb_probs, prev=None):
-        prev_snapshot = [[seg_t(s) for s in h] for h in (prev or [])]
-        log_start = len(rp.log)
-        call_start = len(calls)
-        out = orig_sim(samples, pops, pop_fracs, pop_gen, chroms_, coords, end_coords, recomb_probs, prev)
-        gens.append(
-            dict(
-                samples=int(samples),
-                pop_gen=int(pop_gen),
-                pop_fracs=[float(x) for x in pop_fracs],
-                chroms=[int(c) if c != "X" else 23 for c in chroms_],
-                end_coords=[[int(m.get_bp_pos()), float(m.get_map_pos())] for m in end_coords],
-                prev=prev_snapshot,
-                prev_after=[[seg_t(s) for s in h] for h in (prev or [])],
-                children=[[seg_t(s) for s in h] for h in out],
-                calls=calls[call_start:],
-                rlog=rp.log[log_start:],
-                coords=coords,
-                recomb_probs=recomb_probs,
+    def rec_sim(*a, **k):
+        with C.glue("recording _simulate (entry)"):
+            A = C.bind_args(orig_sim, a, k)
+            samples, pops, pop_fracs, pop_gen, chroms_, coords, end_coords, recomb_probs, prev = (list(A.values()) + [None])[:9]
+            prev_snapshot = [[seg_t(s) for s in h] for h in (prev or [])]
+            log_start = len(rp.log)
+            call_start = len(calls)
+        out = orig_sim(*a, **k)
+        with C.glue("recording _simulate (exit)"):
+            gens.append(
+                dict(
+                    samples=int(samples),
+                    pop_gen=int(pop_gen),
+                    pop_fracs=[float(x) for x in pop_fracs],
+                    chroms=[int(c) if c != "X" else 23 for c in chroms_],
+                    end_coords=[[int(m.get_bp_pos()), float(m.get_map_pos())] for m in end_coords],
+                    prev=prev_snapshot,
+                    prev_after=[[seg_t(s) for s in h] for h in (prev or [])],
+                    children=[[seg_t(s) for s in h] for h in out],
+                    calls=calls[call_start:],
+                    rlog=rp.log[log_start:],
+                    coords=coords,
+                    recomb_probs=recomb_probs,
+                )
             )
-        )
         return out
 
     sg.np, sg.get_segment, sg._simulate = _NPProxy(rp), rec_gs, rec_sim
